@@ -175,6 +175,15 @@ def render_type(g, n, b=0, top=True):
     raise Unrenderable(k)
 
 
+def graph_esc(g, n):
+    """boundaries above node n that its Cycle nodes reach (0 = closed)"""
+    t = g["types"][n - 1]
+    if t["k"] == "cyc":
+        return t["n"]
+    m = max([graph_esc(g, c) for c in kids(g, n)] or [0])
+    return max(m - 1, 0) if t["k"] in ("uni", "fn") else m
+
+
 def facing(g, a, b):
     """Tags of the constructor pairs that face each other when the relation walks (self a, pattern b):
     only used to ROUTE a TLC-found mismatch to a known-finding key, never to judge."""
@@ -185,6 +194,11 @@ def facing(g, a, b):
         if (x, y) in seen:
             return
         seen.add((x, y))
+        if x == y:
+            # one registry id, two contexts: the relation / narrowing treat them as the same type
+            if graph_esc(g, x) > 0:
+                tags.add("same-open-id")
+            return
         tx, ty = g["types"][x - 1], g["types"][y - 1]
         kx, ky = tx["k"], ty["k"]
         if kx == "cyc" or ky == "cyc":
@@ -209,6 +223,8 @@ def facing(g, a, b):
             fy = g["tuples"][ty["t"] - 1]["fs"] if ky == "tup" else ty["fs"]
             if kx == "par" and ky == "tup":
                 tags.add("par<tup")
+            if kx == "tup" and ky == "par":
+                tags.add("tup~par")
             if kx == "par" and ky == "par":
                 tags.add("par~par")
                 if tx["name"] == "" and ty["name"] != "":
@@ -218,9 +234,11 @@ def facing(g, a, b):
                     if p["l"] and p["l"] == q["l"]:
                         walk(p["t"], q["t"])
         elif kx == "fn" and ky == "fn":
+            tags.add("fn~fn")
             walk(ty["p"], tx["p"])
             walk(tx["r"], ty["r"])
         elif kx == "proc" and ky == "proc":
+            tags.add("proc~proc")
             walk(tx["s"], ty["s"])
             walk(tx["r"], ty["r"])
 
@@ -233,6 +251,18 @@ K_PP = "overlap:partial-vs-partial"
 K_NAME = "compat:partial-name-right-only"
 K_CYC = "compat:cycle-on-value-side"
 K_DIV = "relation:callable-cycle-diverges"
+K_IDENT = "identity:cycle-bearing-node-shared"
+K_WIDE = "narrow:complement-of-widened-intersection"
+K_SHIFT = "narrow:cycle-depth-shift"
+
+
+def has_nested_open_union(g, a):
+    """a union strictly below root a with a cycle-bearing member (its boundary carries Cycle depths)"""
+    for n in reach_ids(g, a):
+        t = g["types"][n - 1]
+        if n != a and t["k"] == "uni" and any(graph_esc(g, m) > 0 for m in t["ms"]):
+            return True
+    return False
 
 PINNED = {
     # key -> (types, tuples, roots): the minimal pair of each finding, replayed on every run
@@ -247,6 +277,24 @@ PINNED = {
             [{"name": "A", "fs": [{"l": "y", "t": 2}]}, {"name": "B", "fs": [{"l": "y", "t": 3}]}], [6, 7]),
     K_DIV: ([{"k": "uni", "ms": []}, {"k": "cyc", "n": 1}, {"k": "fn", "p": 2, "r": 2, "rc": 1},
              {"k": "fn", "p": 3, "r": 2, "rc": 1}], [], [3, 4]),
+    K_IDENT: ([{"k": "uni", "ms": []}, {"k": "int"}, {"k": "bin"}, {"k": "cyc", "n": 1}, {"k": "tup", "t": 1},
+               {"k": "tup", "t": 2}, {"k": "tup", "t": 3}, {"k": "uni", "ms": [5, 7]}, {"k": "uni", "ms": [6, 7]}],
+              [{"name": "A", "fs": [{"l": "", "t": 2}]}, {"name": "A", "fs": [{"l": "", "t": 3}]},
+               {"name": "B", "fs": [{"l": "", "t": 4}]}], [8, 9]),
+    K_WIDE: ([{"k": "uni", "ms": []}, {"k": "int"}, {"k": "bin"}, {"k": "ref"}, {"k": "tup", "t": 1},
+              {"k": "tup", "t": 2}, {"k": "uni", "ms": [2, 3]}, {"k": "fn", "p": 2, "r": 5, "rc": 1},
+              {"k": "fn", "p": 4, "r": 6, "rc": 1}, {"k": "fn", "p": 7, "r": 5, "rc": 1},
+              {"k": "uni", "ms": [8, 9]}],
+             [{"name": "A", "fs": []}, {"name": "", "fs": []}], [11, 10]),
+    K_SHIFT: ([{"k": "uni", "ms": []}, {"k": "int"}, {"k": "bin"}, {"k": "cyc", "n": 1}, {"k": "cyc", "n": 2},
+               {"k": "tup", "t": 1}, {"k": "tup", "t": 2}, {"k": "tup", "t": 3}, {"k": "uni", "ms": [7, 6]},
+               {"k": "uni", "ms": [8, 6]}, {"k": "tup", "t": 4}, {"k": "tup", "t": 5}, {"k": "tup", "t": 6},
+               {"k": "uni", "ms": [2, 11, 13]}, {"k": "uni", "ms": [3, 12, 13]}],
+              [{"name": "Nil", "fs": []},
+               {"name": "A", "fs": [{"l": "", "t": 5}, {"l": "", "t": 4}]},
+               {"name": "Cons", "fs": [{"l": "", "t": 5}, {"l": "", "t": 4}]},
+               {"name": "B", "fs": [{"l": "", "t": 9}]}, {"name": "B", "fs": [{"l": "", "t": 10}]},
+               {"name": "", "fs": []}], [14, 15]),
 }
 
 E2E = {
@@ -257,6 +305,13 @@ E2E = {
     K_CYC: ("'s = A[y: 'int] | B[y: ^]\nf = #(y: 'int) { [~.y, 1] __integer_add__ }\ng = #'s { f }\n"
             "B[y: A[y: 1]] g", "rejected"),
     K_DIV: ("'f = #^ -> ^\n'g = #'f -> ^\nh = #('f | 'int) { | ='g => 1 | 2 }\n5 h", {"k": "int", "n": 2}),
+    K_IDENT: ("'x = A['int] | B[^]\n'y = A['bin] | B[^]\nf = #'x { | ='y => 1 | =A[n] => 2 | 3 }\nB[A[0]] f",
+              {"k": "int", "n": 3}),
+    K_WIDE: ("f = #((#'int -> A) | (#'ref -> [])) { | =(#('int | 'bin) -> A) => 1 | =(#'ref -> []) => 2 | 3 }, "
+             "#'int { A } f", {"k": "int", "n": 3}),
+    K_SHIFT: ("'j = 'int | B[(A[^, ^1] | Nil)] | []\n'k = 'bin | B[(Cons[^, ^1] | Nil)] | []\n"
+              "f = #'j { | ='k => 1 | =B[A[h, t]] => t { | =Nil => 2 | 3 } | 4 }\nB[A[0, Nil]] f",
+              {"k": "int", "n": 2}),
 }
 
 
@@ -268,6 +323,8 @@ def route(rule, g, roots, i, j, k=0):
             return K_PT
         if "par~par" in tags:
             return K_PP
+        if "same-open-id" in tags:
+            return K_IDENT
         return None
     if rule in ("SOUND", "COMPL"):
         tags = facing(g, roots[i - 1], roots[j - 1])
@@ -275,6 +332,12 @@ def route(rule, g, roots, i, j, k=0):
             return K_NAME
         if "cyc|other" in tags:
             return K_CYC
+        if "same-open-id" in tags:
+            return K_IDENT
+        if rule == "COMPL" and has_nested_open_union(g, roots[i - 1]):
+            return K_SHIFT
+        if rule == "COMPL" and tags & {"fn~fn", "proc~proc", "par~par", "tup~par"}:
+            return K_WIDE
         return None
     if rule == "TRANS":
         # i <= j <= k claimed, i <= k denied: blame an unsound premise
@@ -579,7 +642,9 @@ def c09_cases(check, tier):
             judge = [[1, 2], [2, 1]]
             # intersection can only lose a value where the spec sees a common one, the
             # complement only where the spec sees a value of A outside B
-            narrow = [[i, j, "inter" if v[(i, j)]["overlap"] else "", "" if v[(i, j)]["contained"] else "compl"]
+            # (for disjoint pairs, where the complement must simply keep A, one pair in four)
+            narrow = [[i, j, "inter" if v[(i, j)]["overlap"] else "",
+                       "compl" if not v[(i, j)]["contained"] and (v[(i, j)]["overlap"] or cid % 4 == 0) else ""]
                       for i, j in ((1, 2), (2, 1))]
             narrow = [x for x in narrow if x[2] or x[3]]
         else:
@@ -777,6 +842,9 @@ def run_c09(prop, tier):
                                      "narrow": c["narrow"]},
                             "is_compatible": ans.get("compat"), "types_overlap": ans.get("overlap")})
     check.cov["mismatches_by_key"] = {str(k): len(v) for k, v in by_key.items()}
+    if os.environ.get("TYPES_DUMP"):
+        with open(os.path.join(WORKD, "mismatches.json"), "w") as f:
+            json.dump({str(k): v for k, v in by_key.items()}, f)
     for key, items in sorted(by_key.items(), key=lambda kv: str(kv[0])):
         items.sort(key=lambda x: len(json.dumps(x["case"])))
         if key is not None and common.finding_for(prop, key) is not None:
